@@ -538,6 +538,58 @@ example : (keepOrRemove exT [[115, 50], [115, 48]] true true).map (·.sqname) = 
 
 end AliTools
 
+/-! ## esl-reformat fasta <alignment file>: "without changing names or residues" on the unaligned branch -/
+section ReformatMsaToFasta
+open EaselModel.Msafile EaselModel.Miniapps.Ali
+
+/-- **no residue is lost or invented by the 60-column line wrapping**: the sequence lines of a record, joined, are the
+    (converted) sequence; every line is non-empty and at most 60 long -/
+theorem reformat_fasta_lines_are_sequence (name acc desc seq : Bytes) :
+    (∃ hdr, fastaRecordB name acc desc seq = hdr ++ (seqLines 60 seq.length seq).flatMap (· ++ [10])) ∧
+    (seqLines 60 seq.length seq).flatten = seq ∧ ∀ l ∈ seqLines 60 seq.length seq, 0 < l.length ∧ l.length ≤ 60 := by
+  obtain ⟨hdr, h1, h2⟩ := fastaRecordB_body name acc desc seq
+  exact ⟨⟨hdr, h1⟩, h2, seqLines_widths 60 (by decide) _ _⟩
+
+/-- the residue options convert position by position (no residue added or dropped) and, with none given, change nothing -/
+theorem reformat_fasta_convert_pointwise (o : Opts) (s : Bytes) :
+    (convertSeq o s).length = s.length ∧ convertSeq {} s = s := ⟨convertSeq_length o s, convertSeq_no_option s⟩
+
+/-- non-vacuity: two Stockholm alignments in one file; `--rename` numbers run on across alignments; the accession and the
+    description follow the name; gap characters `-._~` are removed, an all-gap row gives a header without sequence lines -/
+example : reformatMsaToFasta { rename := some (str "n") } "stockholm"
+    (str "# STOCKHOLM 1.0\n#=GS s1 AC A1\n#=GS s1 DE d e\ns1 A-c.G\ns2 -._~-\n//\n# STOCKHOLM 1.0\nt1 UU\n//\n")
+    = some (str ">n.1 A1 d e\nAcG\n>n.2\n>n.3\nUU\n") := by decide +kernel
+
+end ReformatMsaToFasta
+
+/-! ## esl-alistat with the optional output files (`Miniapps/AlistatInfo.lean`): "alignment statistics equal recomputed counts"
+
+The counters are binary64 (the tool's own arithmetic is mirrored operation by operation and compared byte for byte with the
+files the tool writes); what is provable without a theory of rounding is the *structure* of the counting. -/
+section AlistatInfo
+open EaselModel.Alphabet EaselModel.Miniapps.Ali
+
+/-- every column has exactly `K+1` counters (K residues + gap), whatever the rows contain -/
+theorem alistat_column_counters (A : Alphabet) (noAmbig : Bool) (rows : List (List Nat)) (apos : Nat) :
+    (columnCounts A noAmbig rows apos).length = A.K + 1 := columnCounts_length A noAmbig rows apos
+
+/-- a canonical residue or a gap is counted in its own cell only; missing data `~` and the nonresidue `*` nowhere -/
+theorem alistat_count_cells (A : Alphabet) (ct : List Float) (wt : Float) :
+    (∀ x y, x ≤ A.K → y ≠ x → (dCount A ct x wt).getD y 0.0 = ct.getD y 0.0) ∧
+    (A.K + 3 ≤ A.Kp → dCount A ct (A.Kp - 1) wt = ct ∧ dCount A ct (A.Kp - 2) wt = ct) :=
+  ⟨fun x y hx hy => dCount_canonical A ct x wt hx y hy,
+   fun hK => ⟨dCount_missing A ct _ wt hK (Or.inl rfl), dCount_missing A ct _ wt hK (Or.inr rfl)⟩⟩
+
+/-- the `rfpos` column of `--rinfo` / `--icinfo` has one cell per alignment column -/
+theorem alistat_rfpos_cells (iamrf : List Bool) : (rfCells iamrf).length = iamrf.length := rfCells_length iamrf
+
+/-- non-vacuity: RNA, `N` is shared out in quarters, `R` in halves over A and G; inserts are counted per RF gap -/
+example : viewsRna.a.K = 4 ∧ viewsRna.a.Kp = 18 := by decide +kernel
+example : insertCounts viewsRna.a [true, false, false, true] [[0, 1, 4, 2], [0, 4, 4, 2], [3, 3, 3, 3]] = [[0, 0, 0], [1, 0, 2], [0, 0, 0]] := by
+  decide +kernel
+
+end AlistatInfo
+
 /-! ## esl-afetch: "fetching returns the requested records" (`Miniapps/Afetch.lean`; complete stdout / output file compared) -/
 section Afetch
 open EaselModel.Msafile EaselModel.Miniapps.Ali
